@@ -58,6 +58,10 @@ def run(tier):
                       "query_group_orders": [str(o) for o in h.ORDERS],
                       "queries": "A: len, access(i), iteration; B: query_index_column_value_indices/first on both columns, "
                                  "search_block_start_end_indics, read_block; C: unique_values_of_column"})
+    b.add("DataModel: 3-column table, two renames (a column may take over the name another one just gave up), equality queries "
+          "on every column before / between / after", M, "check_datamodel_rename",
+          slices=[dict(r0=[k]) for k in range(len(h.RENAMES))], pct=300 if tier == "quick" else 1200, ppt=60,
+          bounds={"renames": [str(x) for x in h.RENAMES], "cells": "two symbolic cell values in {missing,0,1,2}", "queries": "optional before and between"})
     for L in vl:
         b.add(f"GIRBlockViewer on every well-nested sequence of {L} rows", M, "check_viewer", slices=[dict(len=L)],
               pct=300 if tier == "quick" else 1200, ppt=30, twin="check_viewer_reach",
@@ -71,5 +75,7 @@ def run(tier):
 def replay(rec):
     cex = rec["cex"]
     func = "check_datamodel_t1" if rec["obligation"].startswith("DataModel") else "check_viewer"
+    if "two renames" in rec["obligation"]:
+        func = "check_datamodel_rename"
     out = xrun.replay_native(M, func, cex.get("slice", {}), cex["cex"])
     return bool(out.get("violated")), out
